@@ -48,10 +48,19 @@ def check(run):
     props = run_bin_parallel("drive", ["lexprop"], cases)
     stat = {}
     bad_prop = {}
+    known = dict(known_findings("C09"))
     for i, (c, r) in enumerate(zip(cases, props)):
         stat[r["status"]] = stat.get(r["status"], 0) + 1
         if r["status"] in ("bad", "panic"):
-            bad_prop[i] = r
+            rest = []
+            for p in r.get("problems", []):
+                key = "escaped-literal-no-raw-mode" if p.startswith("rawbody:escaped") else "unicode-literal-no-raw-mode" if p.startswith("rawbody:unicode") else None
+                if key and key in known:
+                    run.known(key, known[key])
+                else:
+                    rest.append(p)
+            if rest or r["status"] == "panic":
+                bad_prop[i] = dict(r, problems=rest or r.get("problems", []))
     run.notes["implementation_property_runs"] = stat
     reported = 0
     for i, r in list(bad_prop.items()):
